@@ -31,6 +31,12 @@ CHECKS = {
  "C13": dict(engine="A", technique="property-based invariant checking over every generated parse tree (LR and all GLR forest trees) incl. pointer-level slice identity (proptest, shrinking)",
    text="Bounded random exploration: every tree built by the real LR parser and every tree (<=50) of the real GLR forest for generated grammars with nullable symbols anywhere and multi-line / multi-byte inputs is checked against the span/position invariants of the property (slice identity by pointer, ordering, parent span, empty-node placement, line/column arithmetic).",
    note="Trusted: the tree copier records slice pointers relative to the input buffer; default whitespace skipping; one recorded GLR finding (packed span shared across alternatives) is keyed on an exact signature."),
+ "C14": dict(engine="A", technique="property-based round-trip and metamorphic testing of the generic tree under generated layout (whitespace skipping and four Layout-rule templates) (proptest, shrinking)",
+   text="Bounded random exploration: generated conflict-free grammars under default whitespace skipping or a Layout rule (whitespace / line comments / nested block comments / non-empty variant); each generated sentence is rendered with several generated layout assignments; tokens + stored layouts must reproduce the input, each stored layout must be the very run the generator put before that token and a sentence of the layout language (independent recogniser), and all re-layouts must give the same tree.",
+   note="Trusted: layout pools are sentences of the templates (unit-tested against the independent recogniser); LR only; prefix-free terminals."),
+ "C15": dict(engine="A+F", technique="property-based robustness testing with a deterministic step budget (non-termination oracle) over generated grammars, arbitrary Unicode inputs and misbehaving custom lexers; libFuzzer campaign in the thorough tier",
+   text="Bounded random exploration: every grammar family (incl. cyclic / empty-ambiguous for GLR, multi-byte tokens > 50 bytes, LR grammars whose conflicts are resolved by meta-data) x arbitrary Unicode / control-character strings and character-level mutations x {real StringLexer, four custom lexers ignoring the expected set}; parse must return Ok or Err under catch_unwind within a step budget counted in the harness's table/recogniser adapters (no wall clock). Debug assertions and overflow checks on.",
+   note="Trusted: every loop iteration of both parsers calls the counted adapters (read from the source); budgets far above legitimate work for the bounded input sizes; one recorded finding (LR reduction loop on non-LR grammars forced by disambiguation) keyed on an exact signature."),
 }
 ALL = ["C%02d" % i for i in range(1, 19)]
 
